@@ -1,4 +1,4 @@
-import AwsVerif.Proofs.C19.Zones
+import AwsVerif.Proofs.C19.Double
 /-! Proofs of the C19 property theorems (statements repeated in `AwsVerif/Props/C19.lean`). -/
 namespace AwsVerif.Proofs.C19.Main
 open AwsVerif.DateTime AwsVerif.DateTime.Spec AwsVerif.Proofs.C19
@@ -239,6 +239,35 @@ theorem c19_gen_constants :
     Gen.Date.isoYearSub = 1900 ∧ 29 ≤ Gen.Date.AWS_DATE_TIME_STR_MAX_LEN ∧
     Gen.Date.asMillisSecs = (1, 1000, false) ∧ Gen.Date.asNanosSecs = (1, 1000000000, false) ∧
     Gen.Date.asNanosMillis = (1000, 1000000000, false) ∧ Gen.Date.initMillis = (1000, 1, true) := by
+  decide
+
+/-! ### init_epoch_secs on a double -/
+
+theorem c19_init_epoch_secs_double (bits : Nat) (dt : DateTime) (h : initEpochSecsDouble bits = some dt) :
+    0 ≤ dt.timestamp ∧ dt.millis ≤ 1000 ∧ dt.gmt = gmtime dt.timestamp ∧
+    (1000 * dt.timestamp.toNat + dt.millis < u64 → asMillis dt = 1000 * dt.timestamp.toNat + dt.millis) ∧
+    asNanos dt = min (1000000000 * dt.timestamp.toNat + 1000000 * dt.millis) (u64 - 1) := by
+  unfold initEpochSecsDouble at h
+  cases hs : splitDouble bits with
+  | none => rw [hs] at h; cases h
+  | some p =>
+    obtain ⟨s, ms⟩ := p
+    rw [hs] at h
+    injection h with h
+    subst h
+    obtain ⟨hms, hs63⟩ := splitDouble_bounds bits s ms hs
+    have hu : u64 = 18446744073709551616 := rfl
+    have h0 : (0 : Int) ≤ (mkDateTime (s : Int) ms false []).timestamp := by simp [mkDateTime]
+    have hlt : (mkDateTime (s : Int) ms false []).timestamp.toNat < u64 := by simp [mkDateTime]; omega
+    have hm : (mkDateTime (s : Int) ms false []).millis < 65536 := by simp [mkDateTime]; omega
+    obtain ⟨v1, v2, _⟩ := c19_epoch_views.1 _ h0 hlt hm
+    exact ⟨h0, by simp [mkDateTime]; exact hms, by simp [mkDateTime], v1, v2⟩
+
+/-- 1033545909.9996 is stored as 1033545909 s + 1000 ms; 1033545909.9994 as … + 999 ms -/
+theorem c19_init_epoch_secs_carry_witness :
+    splitDouble 0x41cecd545afff2e5 = some (1033545909, 1000) ∧ splitDouble 0x41cecd545affec57 = some (1033545909, 999) ∧
+    asMillis { timestamp := 1033545909, millis := 1000 } = 1033545910000 ∧
+    asNanos { timestamp := 1033545909, millis := 1000 } = 1033545910000000000 := by
   decide
 
 /-! ### the formatters append -/
